@@ -4,6 +4,7 @@ import os
 import re
 
 import summ
+import sym
 
 HERE = os.path.dirname(os.path.abspath(__file__))
 
@@ -101,10 +102,28 @@ def check_group2(run, rule, F, crate, group, expect, only=None, what=None):
             if len(cands) == 1:
                 f = cands[0]
                 run.note("%s is now %s (type moved between modules)" % (key, summ.fn_key(f)))
+        subst = None
+        if f is None and key.startswith("<"):
+            # one generic impl may have replaced a family of per-type impls (`impl<T: Sealed> Tr for W<T>` instead of a macro):
+            # the specified instance is that impl at the instance's type arguments
+            m = re.match(r"^<(.*) as ([\w:<>', ]+)>::(\w+)$", key)
+            if m:
+                ty, tr, meth = m.groups()
+                cands = []
+                for g in crate.fns:
+                    gens = set(getattr(g, "generics", None) or [])
+                    if g.name != meth or not g.impl_self or not gens or not specified(g) or (g.impl_trait or "-").split("::")[-1] != tr.split("<")[0]:
+                        continue
+                    b = {}
+                    if sym.unify_ty(g.impl_self, ty, gens, b) and b and summ.fn_key(g) not in expect.get(group, {}):
+                        cands.append((g, b))
+                if len(cands) == 1:
+                    f, subst = cands[0]
+                    run.note("%s is %s at %s" % (key, summ.fn_key(f), subst))
         if f is None:
             run.bad(rule, key, "specified function not found in the analysed crate (public API or trait method renamed or removed?)")
             continue
-        summ2.check(run, rule, f, want, F, what=what, renames=ren, hyps=invariants_for(f), key=key)
+        summ2.check(run, rule, f, want, F, what=what, renames=ren, hyps=invariants_for(f), key=key, root_subst=subst)
         n += 1
     for key, f in sorted(fns.items()):
         if only and not only(key):
